@@ -56,7 +56,7 @@ def gen(rng, tier, idx):
     return dict(kind=kind, P=max(g[0] * g[1] for g in grids), ckw=ckw, grids=grids,
                 chi=rng.choice([0, 1]), adiabatic=rng.random() < 0.75, rseed=rng.randrange(1 << 30),
                 complex_rho=rng.random() < 0.15, B=rng.choice([None, None, 1.0, 0.6, 1.7]) if kind == 'pipeline' else None,
-                Te_user=[rng.choice([0.5, 1.0, 2.5]), rng.choice([0.0, 0.4, -0.3]), rng.choice([3.0, 7.0])] if (kind == 'pipeline' and rng.random() < 0.25) else None, twice=rng.random() < 0.4, regrid=rng.random() < 0.4, start=rng.choice(['flux_surface', 'v_parallel', 'poloidal']),
+                Te_user=[rng.choice([0.5, 1.0, 2.5]), rng.choice([0.0, 0.4, -0.3]), rng.choice([3.0, 7.0])] if (kind == 'pipeline' and rng.random() < 0.25) else None, amp=rng.choice([1.0, 1.0, 1.0, 1e-9, 1e-12, 1e6]), twice=rng.random() < 0.4, regrid=rng.random() < 0.4, start=rng.choice(['flux_surface', 'v_parallel', 'poloidal']),
                 sched=sched)
 
 
@@ -66,7 +66,8 @@ def density(case):
     R = rs.standard_normal(n)
     if case['complex_rho']:
         R = R + 1j * rs.standard_normal(n)
-    return R
+    # the equation is linear and homogeneous: the size of the density must not matter
+    return R * float(case.get('amp') or 1.0)
 
 
 def run_pipeline(case, tape):
